@@ -10,7 +10,7 @@ import itertools
 
 import numpy as np
 
-from vlib import models
+from vlib import ens, models
 from vlib.build import rng_for
 
 PROPERTY = "C04"
@@ -35,8 +35,8 @@ ASSUMPTIONS = ["failed realizations are passed to filters as all-NaN rows (what 
                "a percentile within 1e-12 of k/n may give k or ceil(p*n) non-zero weights; negative weights are never accepted"]
 EXHAUSTIVE = {"quick": False, "thorough": False}
 BOUNDS = {"quick": {"exhaustive_n": 5, "sampled_n_max": 30}, "thorough": {"exhaustive_n": 7, "sampled_n_max": 60}}
-REQUIRED = {"quick": {"cvar.calls": 20000, "cvar.e2e": 200, "cvar.e2e_after_another_constraint_filter": 60, "cvar.e2e_later_evaluation_of_same_evaluator": 200, "cvar.no_success": 10, "__nontrivial__": 100},
-            "thorough": {"cvar.calls": 1000000, "cvar.e2e": 2000, "cvar.e2e_after_another_constraint_filter": 600, "cvar.e2e_later_evaluation_of_same_evaluator": 2000, "cvar.no_success": 50, "__nontrivial__": 1000}}
+REQUIRED = {"quick": {"cvar.calls": 20000, "cvar.e2e": 200, "cvar.with_zero_configured_weight": 700, "cvar.e2e_after_another_constraint_filter": 60, "cvar.e2e_later_evaluation_of_same_evaluator": 200, "cvar.no_success": 10, "__nontrivial__": 100},
+            "thorough": {"cvar.calls": 1000000, "cvar.e2e": 2000, "cvar.with_zero_configured_weight": 7000, "cvar.e2e_after_another_constraint_filter": 600, "cvar.e2e_later_evaluation_of_same_evaluator": 2000, "cvar.no_success": 50, "__nontrivial__": 1000}}
 
 FLAVOURS = [("objective", None), ("constraint", "upper"), ("constraint", "lower"), ("constraint", "eq"),
             ("constraint", "two"), ("objective2", None), ("objective_neg", None)]
@@ -208,7 +208,15 @@ def run_case(case, obs):
         obs.feature("has_failed")
     base = np.sort(rng.normal(size=ns))
     for p in grid:
-        cfg, meta = _config(n, fl, kind, float(p), rng)
+        # configured realization weights do not matter to a CVaR filter (n counts the successful realizations): uniform,
+        # non-uniform, or with exact zeros
+        cw = None
+        if mode == "sampled" or case.get("i", 0) % 3 == 1 or (case.get("chunk") or [0])[0] % 3 == 1:
+            cw = ens.gen_weights(rng, n) if n > 1 else [1.0]
+            obs.count("cvar.with_configured_weights")
+            if 0.0 in cw:
+                obs.count("cvar.with_zero_configured_weight")
+        cfg, meta = _config(n, fl, kind, float(p), rng, weights=cw)
         flt = pm.get_plugin("realization_filter", cfg.realization_filters[0].method).create(cfg, 0)
         if mode == "exhaustive":
             perms = itertools.permutations(range(ns)) if ns else [()]
@@ -263,7 +271,10 @@ def _e2e(case, obs):
         first = [{"method": "cvar-constraint", "options": {"sort": 0, "percentile": p0}},
                  {"method": "sort-constraint", "options": {"sort": 0, "first": 0, "last": n - 1}}][int(rng.integers(2))]
         obs.count("cvar.e2e_after_another_constraint_filter")
-    cfg, meta = _config(n, fl, kind, p, rng, first_filter=first)
+    cw = ens.gen_weights(rng, n) if n > 1 and rng.random() < 0.5 else None
+    if cw is not None and 0.0 in cw:
+        obs.count("cvar.e2e_with_zero_configured_weight")
+    cfg, meta = _config(n, fl, kind, p, rng, weights=cw, first_filter=first)
     st = {}
 
     def draw():
